@@ -390,6 +390,8 @@ type Request struct {
 	Ctx          *Ctx
 	// ViaReader: call ParseReader on a reader over Input instead of Parse.
 	ViaReader bool
+	// ViaFile: write Input to the file named Filename and call ParseFile on it.
+	ViaFile bool
 	// WarmStats (with Stats): the Stats value handed to the parse has already been used by an
 	// earlier parse of the same input (without a recorder and without a budget).
 	WarmStats bool
